@@ -1,0 +1,90 @@
+//go:build verif
+
+package openapi3filter
+
+// Contracts for request orchestration (C07). Comment-only; read by /verif/engine (govc).
+//
+// The verdicts of the authentication callback, of ValidateParameter and of ValidateRequestBody
+// are abstract predicates here (that is the property: "a request passes iff security, every
+// effective parameter and the body pass"); `defines` clauses tie each predicate to the result
+// of the function that computes it.
+
+//@ spec authOK(name string) bool
+//@ spec paramOK(p *openapi3.Parameter) bool
+//@ spec bodyOK(rb *openapi3.RequestBody) bool
+
+//@ spec schemesOf(in *RequestValidationInput) openapi3.SecuritySchemes :=
+//@     in.Route.Spec.Components == nil ? nil : in.Route.Spec.Components.SecuritySchemes
+//@ spec declared(in *RequestValidationInput, n string) bool :=
+//@     schemesOf(in)[n] != nil && schemesOf(in)[n].Value != nil
+// one requirement: every scheme it names is declared and accepted (an empty requirement needs nothing)
+//@ spec reqOK(in *RequestValidationInput, sr openapi3.SecurityRequirement) bool :=
+//@     forall n string :: has(sr, n) ==> declared(in, n) && authOK(n)
+// a list of requirements: empty, or some requirement satisfied
+//@ spec secOK(in *RequestValidationInput, srs openapi3.SecurityRequirements) bool :=
+//@     len(srs) == 0 || (exists i int :: 0 <= i && i < len(srs) && reqOK(in, srs[i]))
+
+//@ fnfield AuthenticationFunc (ctx, ai)
+//@   modifies http.Request.*
+//@   defines (result == nil) <==> authOK(ai.SecuritySchemeName)
+
+//@ func validateSecurityRequirement
+//@   requires input != nil && input.Route != nil && input.Route.Spec != nil
+//@   assuming input.Options != nil && input.Options.AuthenticationFunc != nil
+//@   modifies http.Request.*
+//@   ensures (result == nil) <==> old(reqOK(input, securityRequirement))
+
+//@ func ValidateSecurityRequirements
+//@   requires input != nil && input.Route != nil && input.Route.Spec != nil
+//@   assuming input.Options != nil && input.Options.AuthenticationFunc != nil
+//@   modifies http.Request.*
+//@   loop 0 invariant forall j int :: 0 <= j && j < #i ==> !old(reqOK(input, srs[j]))
+//@   ensures (result == nil) <==> old(secOK(input, srs))
+//@   tag C07
+
+//@ func ValidateParameter
+//@   modifies *
+//@   preserves @C07 all(openapi3), all(routers), Options.*, RequestValidationInput.Route, RequestValidationInput.Options
+//@   defines (result == nil) <==> paramOK(parameter)
+
+//@ func ValidateRequestBody
+//@   modifies *
+//@   preserves @C07 all(openapi3), all(routers), Options.*, RequestValidationInput.Route, RequestValidationInput.Options
+//@   defines (result == nil) <==> bodyOK(requestBody)
+
+// The security requirements in effect: the operation's own when it declares any (even an empty
+// list), else the document's.
+//@ spec effSecurity(in *RequestValidationInput) openapi3.SecurityRequirements :=
+//@     in.Route.Operation.Security != nil ? *in.Route.Operation.Security : in.Route.Spec.Security
+//@ spec overridden(ops openapi3.Parameters, p *openapi3.Parameter) bool :=
+//@     exists k int :: 0 <= k && k < len(ops) && ops[k].Value != nil && ops[k].Value.Name == p.Name && ops[k].Value.In == p.In
+//@ spec skipQ(o *Options, p *openapi3.Parameter) bool := o.ExcludeRequestQueryParams && p.In == "query"
+//@ spec pathParamOK(in *RequestValidationInput, p *openapi3.Parameter) bool :=
+//@     overridden(in.Route.Operation.Parameters, p) || skipQ(in.Options, p) || paramOK(p)
+//@ spec opParamOK(in *RequestValidationInput, p *openapi3.Parameter) bool :=
+//@     skipQ(in.Options, p) || paramOK(p)
+//@ spec bodyPartOK(in *RequestValidationInput) bool :=
+//@     in.Route.Operation.RequestBody == nil || in.Options.ExcludeRequestBody || bodyOK(in.Route.Operation.RequestBody.Value)
+//@ spec wfParams(ps openapi3.Parameters) bool := forall k int :: 0 <= k && k < len(ps) ==> ps[k] != nil && ps[k].Value != nil
+
+// A route as the routers deliver it for a validated document.
+//@ spec routeWF(r *routers.Route) bool :=
+//@     r != nil && r.Operation != nil && r.PathItem != nil && r.Spec != nil
+//@  && wfParams(r.Operation.Parameters) && wfParams(r.PathItem.Parameters)
+
+//@ func ValidateRequest
+//@   requires input != nil && routeWF(input.Route)
+//@   assuming input.Options != nil && input.Options.AuthenticationFunc != nil
+//@   modifies *
+//@   preserves @C14 Validator.strict, Validator.errFunc, Validator.logFunc, Validator.router, strictResponseWrapper.*, warnResponseWrapper.*
+//@   preserves @C14 handlerCalls, errCalls, cliHdr, cliCode, cliBody
+//@   records reqOK := (result == nil)
+//@   loop 0 invariant !input.Options.MultiError ==> len(me) == 0
+//@   loop 0 invariant (len(me) == 0) <==> (old(secOK(input, effSecurity(input))) && (forall j int :: 0 <= j && j < #i ==> old(pathParamOK(input, input.Route.PathItem.Parameters[j].Value))))
+//@   loop 1 invariant !input.Options.MultiError ==> len(me) == 0
+//@   loop 1 invariant (len(me) == 0) <==> (old(secOK(input, effSecurity(input))) && (forall j int :: 0 <= j && j < len(input.Route.PathItem.Parameters) ==> old(pathParamOK(input, input.Route.PathItem.Parameters[j].Value))) && (forall j int :: 0 <= j && j < #i ==> old(opParamOK(input, input.Route.Operation.Parameters[j].Value))))
+//@   ensures [verdict] (result == nil) <==> (old(secOK(input, effSecurity(input)))
+//@        && (forall j int :: 0 <= j && j < len(input.Route.PathItem.Parameters) ==> old(pathParamOK(input, input.Route.PathItem.Parameters[j].Value)))
+//@        && (forall j int :: 0 <= j && j < len(input.Route.Operation.Parameters) ==> old(opParamOK(input, input.Route.Operation.Parameters[j].Value)))
+//@        && old(bodyPartOK(input)))
+//@   tag C07
